@@ -305,11 +305,18 @@ func (evpool *Pool) addPendingEvidence(ev types.Evidence) error {
 
 	key := keyPending(ev)
 
+	// The size counts pending items: saving evidence that is already pending
+	// again (CheckEvidence does so for light client attack evidence) must not
+	// count it twice.
+	alreadyPending := evpool.isPending(ev)
+
 	err = evpool.evidenceStore.Set(key, evBytes)
 	if err != nil {
 		return fmt.Errorf("can't persist evidence: %w", err)
 	}
-	atomic.AddUint32(&evpool.evidenceSize, 1)
+	if !alreadyPending {
+		atomic.AddUint32(&evpool.evidenceSize, 1)
+	}
 	return nil
 }
 
